@@ -330,37 +330,8 @@ def tag(line, impl, model):
     return "x %s %s %s" % ("deny" if t[1][0] == "1" else "page", kind, "reflects" if MARK in page else "no-marker")
 
 
-def last_macro(t):
-    i, last = 0, None
-    while i < len(t):
-        if t[i] == 37:
-            last = t[i + 1] if i + 1 < len(t) else 0
-            i += 2
-        else:
-            i += 1
-    return last
-
-
-# letters whose block fills the function-static `mb` (the others set `p` only, or nothing)
-MB_LETTERS = set(b"AbBDeEghiMpPRStTuwx")
-
-
 def classify(line, impl, why):
-    """C33-nested-static-buffer: in-process lines only, a %D/%S nesting whose nested template ends in a buffer-based macro"""
-    t = line.split(" ")
-    if t[0] == "w" and t[1] in ("ftp-list-long", "ftp-list-junk") and "raw markup" in (why or "") and " ERR_DIR_LISTING " in impl:
-        return "C33-ftp-listing-raw-line"
-    if t[0] != "x" or "raw markup" not in (why or ""):
-        return None
-    tmpl, sig = unhx(t[2]), unhx(t[3])
-    detail = b""
-    for item in t[4].split(","):
-        if item.startswith("detailv="):
-            detail = unhx(item[8:])
-    if not (b"%D" in tmpl + sig or b"%S" in tmpl + detail):
-        return None
-    nested = [n for n in (detail, sig) if last_macro(n) in MB_LETTERS]
-    return "C33-nested-static-buffer" if nested else None
+    return None     # no known findings: C33-nested-static-buffer (f565422) and C33-ftp-listing-raw-line (5325ceb) are fixed; their witnesses stay as cases
 
 
 def exhaustive(tier):
